@@ -569,7 +569,14 @@ func registerModels(ld *loaded) {
 		return fromTerm(px, identicalTerm(px, x, y), types.Bool)
 	}
 	m["go/types.TypeString"] = func(fr *frame, a []value) value {
-		return typeStringModel(fr.i.px, a[0].(iface))
+		x := a[0].(iface)
+		if x.t != nil && !containsAbs(x, 0) && fr.i.px.ex.cfg.Params["real_typestring"] != 0 {
+			if fn := ld.prog.ImportedPackage("go/types").Func("TypeString"); fn != nil && fn.Blocks != nil {
+				fr.i.skipIntrinsic = true
+				return call(fr.i, fr, token.NoPos, fn, a)
+			}
+		}
+		return typeStringModel(fr.i.px, x)
 	}
 	m["(golang.org/x/tools/go/types/typeutil.Hasher).Hash"] = func(fr *frame, a []value) value { return uint32(0) }
 	m["fmt.Sprintf"] = func(fr *frame, a []value) value {
@@ -935,6 +942,9 @@ var nativeTable = map[string]func(a []value) value{
 	},
 	"strings.Split": func(a []value) value { return fromGoStrings(strings.Split(a[0].(string), a[1].(string))) },
 	"strconv.Itoa":  func(a []value) value { return strconv.Itoa(int(asInt64(a[0]))) },
+	"strconv.FormatInt":  func(a []value) value { return strconv.FormatInt(asInt64(a[0]), int(asInt64(a[1]))) },
+	"strconv.FormatUint": func(a []value) value { return strconv.FormatUint(uint64(asInt64(a[0])), int(asInt64(a[1]))) },
+	"strings.Repeat":     func(a []value) value { return strings.Repeat(a[0].(string), int(asInt64(a[1]))) },
 	"path/filepath.Base": func(a []value) value { return filepath.Base(a[0].(string)) },
 	"path/filepath.Dir":  func(a []value) value { return filepath.Dir(a[0].(string)) },
 	"path/filepath.Join": func(a []value) value {
